@@ -19,6 +19,8 @@ func main() {
 		cmdFn(os.Args[2:])
 	case "check":
 		os.Exit(cmdCheck(os.Args[2:]))
+	case "lemmas":
+		cmdLemmas(os.Args[2:])
 	default:
 		fmt.Fprintln(os.Stderr, "unknown command", os.Args[1])
 		os.Exit(2)
@@ -120,3 +122,48 @@ func cmdFn(args []string) {
 }
 
 func cmdCheck(args []string) int { return 2 }
+
+// cmdLemmas: prove spec-library lemmas (developer tool).
+func cmdLemmas(args []string) {
+	fs := flag.NewFlagSet("lemmas", flag.ExitOnError)
+	repo := fs.String("repo", "/repo", "repository")
+	spec := fs.String("spec", "/verif/spec", "spec dir")
+	to := fs.Int("t", 20, "timeout seconds")
+	verbose := fs.Bool("v", false, "verbose")
+	fs.Parse(args)
+	v, err := setup(*repo, *spec)
+	if err != nil {
+		fmt.Fprintln(os.Stderr, "setup:", err)
+		os.Exit(2)
+	}
+	var obls []*Obligation
+	for _, n := range v.lib.LemmaOrd {
+		if len(fs.Args()) > 0 {
+			ok := false
+			for _, a := range fs.Args() {
+				if strings.Contains(n, a) {
+					ok = true
+				}
+			}
+			if !ok {
+				continue
+			}
+		}
+		os, err := v.lemmaObligations(v.lib.Lemmas[n])
+		if err != nil {
+			fmt.Println("ERROR:", err)
+			continue
+		}
+		obls = append(obls, os...)
+	}
+	rs := v.dischargeAll(obls, *to, false, 16)
+	for _, r := range rs {
+		fmt.Printf("  %-8s %-50s %s %.2fs\n", r.Status, r.Obl.Name, r.Backend, r.Time)
+		if *verbose && r.Status != "proved" {
+			fmt.Println("          " + strings.ReplaceAll(r.Output, "\n", "\n          "))
+		}
+	}
+	if smtDir != "" && os.Getenv("GOVC_KEEP") == "" {
+		os.RemoveAll(smtDir)
+	}
+}
